@@ -57,8 +57,10 @@ MANIFEST = {
             "RUNNING at the next, for every integer v; every writer of restart_duration / install_duration in the package is pinned. "
             "install timing is ONE theorem over Node.run for applications too (C13_node_install_timing: for every operation sequence, raising "
             "operations included, INSTALLING while fewer than max(c,1) ticks were delivered, RUNNING + GOOD at that tick; refinement "
-            "C13_run_application); the port-table and class-map statements of SoftwareManager.install / uninstall are TRANSLATED and proved "
-            "to be the model's for every registry state, with programs sharing a (port, protocol) key: the last installer owns the slot, "
+            "C13_run_application); SoftwareManager.install and SoftwareManager.uninstall are TRANSLATED statement by statement (guard, constructor, eviction, "
+            "list / route / table writes, start / install / forced CLOSED, in source order) and proved equal AS WHOLE METHODS to the model's "
+            "installSvc / installApp / uninstall for every node state in which no object is both a service and an application (a "
+            "hypothesis, not proved preserved), with programs sharing a (port, protocol) key: the last installer owns the slot, "
             "uninstalling a non-owner keeps it, uninstalling the owner empties it although another program with the key is installed. "
             "CONNECTION BOOKKEEPING (add_connection / terminate_connection): health becomes OVERWHELMED exactly when a connection is "
             "requested at max_sessions; the table never exceeds max_sessions. "
@@ -82,7 +84,7 @@ MANIFEST = {
             "Node.apply_timestep is modelled at its place in the per-service loop only while no power countdown is pending; "
             "termination of the model's transport is proved for nodes with at most 61 installed programs (fuel 4096); "
             "class-specific `execute`/`configure` requests, C2Beacon closing itself, DatabaseService's nested FTPClient install, "
-            "are not covered; of SoftwareManager.install / uninstall only the table statements are translated (the rest by guard / order pins); of the loader only the defaults block of the "
+            "are not covered; of the loader only the defaults block of the "
             "services loop is translated (install_duration has no configuration source: class default only; per-service `fixing_duration` "
             "options are C14/C20's; float / underscore numerals of the defaults section are outside the value model); router/firewall frame paths only as far "
             "as the hand-over test to the session manager.",
